@@ -416,6 +416,71 @@ package nfa
 //@   ensures forall b0 byte :: acc1(c.builder, result, endState, b0) <==> (lo <= int(b0) && int(b0) <= hi)
 //@   ensures int(result) == old(len(c.builder.states)) && len(c.builder.states) == old(len(c.builder.states)) + 1 && off(c.builder.states) == 0 && c.builder == old(c.builder) && c.builder.byteClassSet == old(c.builder.byteClassSet)
 
+// ---- range splitting (C15): the COVER PROTOCOL ----
+// What is proved for the range functions is stated over the byte-range chains at the moment they are built, read back
+// from the builder's heap (so it is about what was really passed to AddByteRange): every chain is a BOX - one interval
+// per byte position - that is an interval of code points (boxNok: below the first position whose interval is not a
+// single byte every interval is the full continuation range), whose first code point is the ghost `nxt` (where the
+// previous box ended, initially lo) and after which nxt is the box's last code point + 1; at the end nxt == hi + 1.
+// Boxes that are code-point intervals, adjacent, starting at lo and ending at hi cover exactly [lo, hi]. What stays
+// assumed: that the returned start list is exactly the list of chains built (C15 assumptions in the evidence).
+//@ spec func bOK(c *Compiler) bool = c != nil && c.builder != nil && c.builder.byteClassSet != nil && off(c.builder.states) == 0
+//@ spec func dec2(b0 byte, b1 byte) int = (int(b0) - 192) * 64 + (int(b1) - 128)
+//@ spec func ch2(b *Builder, s StateID, end StateID) bool = int(s) < len(b.states) && b.states[s].kind == StateByteRange && int(b.states[s].next) < len(b.states) && b.states[b.states[s].next].kind == StateByteRange && b.states[b.states[s].next].next == end
+//@ spec func box2ok(l0 byte, h0 byte, l1 byte, h1 byte) bool = 194 <= l0 && l0 <= h0 && h0 <= 223 && 128 <= l1 && l1 <= h1 && h1 <= 191 && (l0 == h0 || (l1 == 128 && h1 == 191))
+
+//@ func (*Compiler).compileUTF82ByteRange
+//@   props C15
+//@   opt safety=off
+//@   opt frame=off
+//@   requires bOK(c)
+//@   requires 0x80 <= lo && lo <= hi && hi <= 0x7FF
+//@   modifies c.builder.states, c.builder.states[*], c.builder.byteClassSet.*
+//@   ghost var nxt = lo
+//@   after call AddByteRange#2: ch2(c.builder, lastcall, endState) && box2ok(c.builder.states[lastcall].lo, c.builder.states[lastcall].hi, c.builder.states[c.builder.states[lastcall].next].lo, c.builder.states[c.builder.states[lastcall].next].hi) && dec2(c.builder.states[lastcall].lo, c.builder.states[c.builder.states[lastcall].next].lo) == nxt
+//@   after call AddByteRange#2: ghost nxt = dec2(c.builder.states[lastcall].hi, c.builder.states[c.builder.states[lastcall].next].hi) + 1
+//@   after call AddByteRange#4: ch2(c.builder, lastcall, endState) && box2ok(c.builder.states[lastcall].lo, c.builder.states[lastcall].hi, c.builder.states[c.builder.states[lastcall].next].lo, c.builder.states[c.builder.states[lastcall].next].hi) && dec2(c.builder.states[lastcall].lo, c.builder.states[c.builder.states[lastcall].next].lo) == nxt
+//@   after call AddByteRange#4: ghost nxt = dec2(c.builder.states[lastcall].hi, c.builder.states[c.builder.states[lastcall].next].hi) + 1
+//@   after call AddByteRange#6: ch2(c.builder, lastcall, endState) && box2ok(c.builder.states[lastcall].lo, c.builder.states[lastcall].hi, c.builder.states[c.builder.states[lastcall].next].lo, c.builder.states[c.builder.states[lastcall].next].hi) && dec2(c.builder.states[lastcall].lo, c.builder.states[c.builder.states[lastcall].next].lo) == nxt
+//@   after call AddByteRange#6: ghost nxt = dec2(c.builder.states[lastcall].hi, c.builder.states[c.builder.states[lastcall].next].hi) + 1
+//@   after call AddByteRange#8: ch2(c.builder, lastcall, endState) && box2ok(c.builder.states[lastcall].lo, c.builder.states[lastcall].hi, c.builder.states[c.builder.states[lastcall].next].lo, c.builder.states[c.builder.states[lastcall].next].hi) && dec2(c.builder.states[lastcall].lo, c.builder.states[c.builder.states[lastcall].next].lo) == nxt
+//@   after call AddByteRange#8: ghost nxt = dec2(c.builder.states[lastcall].hi, c.builder.states[c.builder.states[lastcall].next].hi) + 1
+//@   ensures nxt == hi + 1
+//@   ensures off(c.builder.states) == 0
+
+//@ spec func dec3(b0 byte, b1 byte, b2 byte) int = (int(b0) - 224) * 4096 + (int(b1) - 128) * 64 + (int(b2) - 128)
+//@ spec func ch3(b *Builder, s StateID, end StateID) bool = int(s) < len(b.states) && b.states[s].kind == StateByteRange && ch2(b, b.states[s].next, end)
+//@ spec func box3ok(l0 byte, h0 byte, l1 byte, h1 byte, l2 byte, h2 byte) bool = 224 <= l0 && l0 <= h0 && h0 <= 239 && 128 <= l1 && l1 <= h1 && h1 <= 191 && 128 <= l2 && l2 <= h2 && h2 <= 191 && (l0 == h0 || (l1 == 128 && h1 == 191 && l2 == 128 && h2 == 191)) && (l1 == h1 || (l2 == 128 && h2 == 191))
+
+// the caller has removed the surrogate gap: the range lies on one side of it (this is what makes the E0/ED special
+// cases of the continuation helpers unreachable here)
+//@ func (*Compiler).compileUTF83ByteRangeSimple
+//@   props C15
+//@   opt safety=off
+//@   opt frame=off
+//@   requires bOK(c)
+//@   requires 0x800 <= lo && lo <= hi && hi <= 0xFFFF && (hi <= 0xD7FF || lo >= 0xE000)
+//@   modifies c.builder.states, c.builder.states[*], c.builder.byteClassSet.*
+//@   ghost var nxt = lo
+//@   after call AddByteRange#3: ch3(c.builder, lastcall, endState) && box3ok(c.builder.states[lastcall].lo, c.builder.states[lastcall].hi, c.builder.states[c.builder.states[lastcall].next].lo, c.builder.states[c.builder.states[lastcall].next].hi, c.builder.states[c.builder.states[c.builder.states[lastcall].next].next].lo, c.builder.states[c.builder.states[c.builder.states[lastcall].next].next].hi) && dec3(c.builder.states[lastcall].lo, c.builder.states[c.builder.states[lastcall].next].lo, c.builder.states[c.builder.states[c.builder.states[lastcall].next].next].lo) == nxt
+//@   after call AddByteRange#3: ghost nxt = dec3(c.builder.states[lastcall].hi, c.builder.states[c.builder.states[lastcall].next].hi, c.builder.states[c.builder.states[c.builder.states[lastcall].next].next].hi) + 1
+//@   after call AddByteRange#6: ch3(c.builder, lastcall, endState) && box3ok(c.builder.states[lastcall].lo, c.builder.states[lastcall].hi, c.builder.states[c.builder.states[lastcall].next].lo, c.builder.states[c.builder.states[lastcall].next].hi, c.builder.states[c.builder.states[c.builder.states[lastcall].next].next].lo, c.builder.states[c.builder.states[c.builder.states[lastcall].next].next].hi) && dec3(c.builder.states[lastcall].lo, c.builder.states[c.builder.states[lastcall].next].lo, c.builder.states[c.builder.states[c.builder.states[lastcall].next].next].lo) == nxt
+//@   after call AddByteRange#6: ghost nxt = dec3(c.builder.states[lastcall].hi, c.builder.states[c.builder.states[lastcall].next].hi, c.builder.states[c.builder.states[c.builder.states[lastcall].next].next].hi) + 1
+//@   after call AddByteRange#9: ch3(c.builder, lastcall, endState) && box3ok(c.builder.states[lastcall].lo, c.builder.states[lastcall].hi, c.builder.states[c.builder.states[lastcall].next].lo, c.builder.states[c.builder.states[lastcall].next].hi, c.builder.states[c.builder.states[c.builder.states[lastcall].next].next].lo, c.builder.states[c.builder.states[c.builder.states[lastcall].next].next].hi) && dec3(c.builder.states[lastcall].lo, c.builder.states[c.builder.states[lastcall].next].lo, c.builder.states[c.builder.states[c.builder.states[lastcall].next].next].lo) == nxt
+//@   after call AddByteRange#9: ghost nxt = dec3(c.builder.states[lastcall].hi, c.builder.states[c.builder.states[lastcall].next].hi, c.builder.states[c.builder.states[c.builder.states[lastcall].next].next].hi) + 1
+//@   loop 1: invariant off(c.builder.states) == 0 && loCont1 <= cont1Val && int(cont1Val) <= int(hiCont1) + 1
+//@   loop 1: invariant nxt == ite(cont1Val == loCont1, lo, ite(cont1Val > hiCont1, hi + 1, dec3(loLead, cont1Val, 128)))
+//@   loop 1: decreases int(hiCont1) + 1 - int(cont1Val)
+//@   loop 2: invariant off(c.builder.states) == 0 && loLead <= leadVal && int(leadVal) <= int(hiLead) + 1
+//@   loop 2: invariant nxt == ite(leadVal == loLead, lo, ite(leadVal > hiLead, hi + 1, dec3(leadVal, 128, 128)))
+//@   loop 2: decreases int(hiLead) + 1 - int(leadVal)
+//@   loop 3: invariant off(c.builder.states) == 0 && loLead <= leadVal && leadVal <= hiLead && c1Lo <= cont1Val && int(cont1Val) <= int(c1Hi) + 1
+//@   loop 3: invariant c1Lo == ite(leadVal == loLead, loCont1, 128) && c1Hi == ite(leadVal == hiLead, hiCont1, 191)
+//@   loop 3: invariant nxt == ite(leadVal == loLead && cont1Val == c1Lo, lo, ite(cont1Val > c1Hi, ite(leadVal == hiLead, hi + 1, dec3(leadVal, 191, 191) + 1), dec3(leadVal, cont1Val, 128)))
+//@   loop 3: decreases int(c1Hi) + 1 - int(cont1Val)
+//@   ensures nxt == hi + 1
+//@   ensures off(c.builder.states) == 0
+
 // ---- character-class repetition searcher (C19): closed form = runs of table bytes ----
 
 //@ spec func ccWin(s *CharClassSearcher, h []byte, i int) bool = 0 <= i && i + s.minMatch <= len(h) && (forall k :: i <= k && k < i + s.minMatch ==> s.membership[h[k]])
